@@ -304,6 +304,16 @@ impl OptimizedExpr {
                     let mapped = Box::new(map_internal(*expr, f));
                     OptimizedExpr::Push(mapped)
                 }
+                #[cfg(feature = "grammar-extras")]
+                OptimizedExpr::RepOnce(expr) => {
+                    let mapped = Box::new(map_internal(*expr, f));
+                    OptimizedExpr::RepOnce(mapped)
+                }
+                #[cfg(feature = "grammar-extras")]
+                OptimizedExpr::NodeTag(expr, tag) => {
+                    let mapped = Box::new(map_internal(*expr, f));
+                    OptimizedExpr::NodeTag(mapped, tag)
+                }
                 expr => expr,
             };
 
@@ -422,6 +432,10 @@ impl OptimizedExprTopDownIterator {
             | OptimizedExpr::Rep(expr)
             | OptimizedExpr::Opt(expr)
             | OptimizedExpr::Push(expr) => {
+                self.next = Some(*expr);
+            }
+            #[cfg(feature = "grammar-extras")]
+            OptimizedExpr::RepOnce(expr) | OptimizedExpr::NodeTag(expr, _) => {
                 self.next = Some(*expr);
             }
             _ => {
